@@ -97,6 +97,7 @@ type Sim struct {
 
 	progress *atomic.Int64
 
+	seqMode bool
 	// SeqSimTime: simulated time covered, maintained by sequential engines themselves.
 	SeqSimTime time.Duration
 }
@@ -115,6 +116,11 @@ func (s *Sim) SeqStep(kind, detail string, nontrivial bool) {
 }
 
 var curSim atomic.Pointer[Sim]
+
+// goroutines started through Go/AfterFunc while no simulation was active
+// (package init, e.g. the default pools' janitors): they live outside every
+// bubble and must never be scheduled by a simulation.
+var foreign sync.Map
 
 func goid() int64 {
 	var buf [40]byte
@@ -155,7 +161,14 @@ func (s *Sim) anomaly(k string) {
 }
 
 // Now is simulated time since the start of the run.
-func (s *Sim) Now() time.Duration { return time.Since(s.start) }
+func (s *Sim) Now() time.Duration { return s.stamp() }
+
+func (s *Sim) stamp() time.Duration {
+	if s.seqMode {
+		return s.SeqSimTime
+	}
+	return time.Since(s.start)
+}
 
 // Fault counts an injected fault that actually fired.
 func (s *Sim) Fault(kind string) {
@@ -197,7 +210,7 @@ func (s *Sim) Notef(format string, a ...any) {
 		return
 	}
 	s.mu.Lock()
-	s.Log = append(s.Log, LogEntry{Step: s.Step, Kind: 'n', Site: fmt.Sprintf(format, a...), Now: time.Since(s.start)})
+	s.Log = append(s.Log, LogEntry{Step: s.Step, Kind: 'n', Site: fmt.Sprintf(format, a...), Now: s.stamp()})
 	s.mu.Unlock()
 }
 
@@ -220,6 +233,9 @@ func Yield(site string) {
 	}
 	t := s.taskOf(g)
 	if t == nil {
+		if _, f := foreign.Load(g); f {
+			return
+		}
 		t = s.adopt(g, site)
 	}
 	if t.lockDepth > 0 {
@@ -247,7 +263,11 @@ func (s *Sim) adopt(g int64, site string) *task {
 	return t
 }
 
-// Locked / Unlocked bracket critical sections; a task never parks inside one.
+// YieldB is the yield placed after a blocking operation. Same as Yield; kept
+// separate so that sites are recognisable in traces.
+func YieldB(site string) { Yield(site) }
+
+// Locked / Unlocked bracket critical sections of real (unsubstituted) mutexes; a task never parks inside one.
 func Locked() {
 	s := curSim.Load()
 	if s == nil {
@@ -259,6 +279,9 @@ func Locked() {
 	}
 	t := s.taskOf(g)
 	if t == nil {
+		if _, f := foreign.Load(g); f {
+			return
+		}
 		t = s.adopt(g, "lock")
 	}
 	t.lockDepth++
@@ -311,10 +334,24 @@ func OnceDo(o *sync.Once, f func()) {
 func Go(site string, fn func()) {
 	s := curSim.Load()
 	if s == nil {
-		go fn()
+		go func() {
+			g := goid()
+			foreign.Store(g, true)
+			defer foreign.Delete(g)
+			fn()
+		}()
 		return
 	}
 	g := goid()
+	if _, f := foreign.Load(g); f {
+		go func() {
+			g := goid()
+			foreign.Store(g, true)
+			defer foreign.Delete(g)
+			fn()
+		}()
+		return
+	}
 	var name string
 	s.mu.Lock()
 	if p := s.byG[g]; p != nil {
@@ -362,7 +399,12 @@ func Go(site string, fn func()) {
 func AfterFunc(site string, d time.Duration, f func()) *time.Timer {
 	s := curSim.Load()
 	if s == nil {
-		return time.AfterFunc(d, f)
+		return time.AfterFunc(d, func() {
+			g := goid()
+			foreign.Store(g, true)
+			defer foreign.Delete(g)
+			f()
+		})
 	}
 	// name fixed at creation time (deterministic), not at firing time
 	g := goid()
@@ -476,7 +518,7 @@ func (s *Sim) logStep(kind byte, who, site string) {
 	}
 	s.sigHash = h
 	if s.LogOn {
-		s.Log = append(s.Log, LogEntry{Step: s.Step, Kind: kind, Who: who, Site: site, Now: time.Since(s.start)})
+		s.Log = append(s.Log, LogEntry{Step: s.Step, Kind: kind, Who: who, Site: site, Now: s.stamp()})
 	}
 }
 
@@ -745,6 +787,7 @@ func RunOne(t interface {
 		// sequential engine: no goroutines to schedule, the scenario is a plain
 		// function of the tape (kernsim). Same failure / probe / fault interface.
 		s.start = time.Now()
+		s.seqMode = true
 		func() {
 			defer func() {
 				if r := recover(); r != nil {
